@@ -153,6 +153,12 @@ func (g *Gen) applyContract(fc *FuncContract, key string, sig *types.Signature, 
 		}
 	}
 	g.callCount[key]++
+	if sig.Recv() != nil && len(args) > 0 && args[0].Addr == nil && fc.Opts["nilrecv"] != "true" {
+		if _, isPtr := sig.Recv().Type().Underlying().(*types.Pointer); isPtr {
+			g.oblige("pre", key+":receiver-nonnil @ "+text, "(not (= "+args[0].S+" 0))", pos, "")
+			g.assume("(not (= " + args[0].S + " 0))")
+		}
+	}
 	// preconditions
 	for i, r := range fc.Requires {
 		if r.E == nil {
@@ -375,8 +381,8 @@ func (g *Gen) havocStructAt(t types.Type, r string) {
 }
 
 func (g *Gen) havocGhostField(env *Env, gd *GhostDecl, ownerE Expr) error {
-	heap, _, valSort, valT := g.ghostHeap(gd)
-	o := g.eval(env, ownerE)
+	heap, owner, valSort, valT := g.ghostHeap(gd)
+	o := g.ghostOwner(g.eval(env, ownerE), owner)
 	var nv string
 	if valT != nil {
 		nv = g.havocVal(valT, "gmod").S
